@@ -1,5 +1,6 @@
 import Jwt.Props.C05
 import Jwt.Lemmas.EcFrame
+import Jwt.Props.C01
 /-!
 # C05, ECDSA part — the `r‖s` framing between libjwt and the libraries
 
@@ -265,5 +266,36 @@ example : osslUnframe 24 [0, 255, 128, 0, 1] = none := by decide +kernel
 example : gnutlsUnframe .es384 (List.replicate 47 0 ++ [7] ++ List.replicate 47 0 ++ [9]) = some (7, 9) := by decide +kernel
 -- the zero-extended form GnuTLS used to accept for ES256 (fixed in /repo 83e8028)
 example : gnutlsUnframe .es256 (List.replicate 47 0 ++ [7] ++ List.replicate 47 0 ++ [9]) = none := by decide +kernel
+
+end Jwt.Props.C05
+
+namespace Jwt.Props.C05
+open Jwt Jwt.Cli Jwt.EcFrame Jwt.Generated Jwt.Props.C20 Jwt.Base64
+
+/-- **C01 for ES256/ES384/ES512/ES256K, down to the integers.** With the provider's public-key verification
+being "libjwt's un-framing, then the mathematical primitive" (`ecVerify`), a checker that holds a key
+returns 0 on a token naming an ECDSA algorithm only if the third segment base64url-decodes to exactly
+`2·w` octets — `w` the coordinate width of the pinned algorithm — and the two big-endian integers they
+denote are a signature the primitive accepts, under that key, over the raw `header.payload` text. -/
+theorem C01_sound_ecdsa (raw : RawEc) (hm : Alg → Bytes → Bytes → Bytes) (env : Env) (ck : Checker) (tok : Option Bytes)
+    (hcr : env.cr = { hmac := hm, pkVerify := ecVerify raw, pkSign := ecSign raw })
+    (h : (verify env ck tok).2 = 0) :
+    ∃ t p, tok = some t ∧ parse env.jc t = .ok p ∧ t = p.head ++ [46] ++ p.payload ++ [46] ++ p.sig ∧
+      ∀ k, (afterCb ck.cfg p).2.key = some k → Alg.isEcdsa p.alg = true →
+        p.alg = pinned (afterCb ck.cfg p).2 ∧
+        ∃ sig, uriDecode p.sig = some sig ∧ sig.length = 2 * coordWidth p.alg ∧
+          raw.verify env.prov k p.alg (signingInput p.head p.payload)
+            (fromBytes ((ofU8 sig).take (coordWidth p.alg)),
+             fromBytes (((ofU8 sig).drop (coordWidth p.alg)).take (coordWidth p.alg))) = true := by
+  obtain ⟨t, p, ht, hp, hshape, _, _, hk⟩ := Jwt.Props.C01.C01_sound env ck tok h
+  refine ⟨t, p, ht, hp, hshape, ?_⟩
+  intro k hkey hec
+  obtain ⟨hpin, hstr, hsig⟩ := hk k hkey
+  refine ⟨hpin, ?_⟩
+  rcases hsig with ⟨hh, _⟩ | ⟨_, sig, hdec, hver⟩
+  · cases hpa : p.alg <;> simp [hpa, Alg.isEcdsa, Alg.isHmac] at hec hh
+  · rw [hcr] at hver
+    obtain ⟨hl, hv⟩ := C01_ecdsa_exact_form raw env.prov p.alg k _ sig hec hstr hver
+    exact ⟨sig, hdec, hl, hv⟩
 
 end Jwt.Props.C05
